@@ -1139,4 +1139,53 @@ where
     {
         self.base.verif_snapshot(clock)
     }
+
+    // Phase-split API: the three phases of a call (map step, maintenance, enqueue) as
+    // separate calls, so that interleavings of several logical threads can be replayed
+    // deterministically on the real code.
+
+    /// The map step of `insert` (`insert_with_hash` without `schedule_write_op`).
+    pub fn verif_insert_map(&self, key: K, value: V) -> crate::verif::PendingWrite<K, V> {
+        let hash = self.base.hash(&key);
+        let key = Arc::new(key);
+        let (op, _now) = self.base.do_insert_with_hash(key, hash, value);
+        crate::verif::PendingWrite(op)
+    }
+
+    /// The map step of `invalidate`.
+    pub fn verif_invalidate_map(&self, key: &K) -> Option<crate::verif::PendingWrite<K, V>> {
+        self.base
+            .remove_entry(key)
+            .map(|kv| crate::verif::PendingWrite(WriteOp::Remove(kv)))
+    }
+
+    /// The lookup of `get`; the read operation is returned instead of being recorded.
+    pub fn verif_get_map(&self, key: &K) -> (Option<V>, crate::verif::PendingRead<K, V>) {
+        self.base.verif_get_phase(key, self.base.hash(key))
+    }
+
+    /// `try_send` of a held write operation, without the housekeeping of `schedule_write_op`.
+    pub fn verif_enqueue_write(
+        &self,
+        p: crate::verif::PendingWrite<K, V>,
+    ) -> Result<(), crate::verif::PendingWrite<K, V>> {
+        match self.base.write_op_ch.try_send(p.0) {
+            Ok(()) => Ok(()),
+            Err(TrySendError::Full(op)) => Err(crate::verif::PendingWrite(op)),
+            Err(TrySendError::Disconnected(_)) => panic!("write channel disconnected"),
+        }
+    }
+
+    /// `try_send` of a held read operation; dropped when the channel is full, as in
+    /// `record_read_op`.
+    pub fn verif_enqueue_read(&self, p: crate::verif::PendingRead<K, V>) {
+        self.base.verif_send_read(p)
+    }
+
+    /// One housekeeping attempt (`Housekeeper::try_sync`), whatever `should_apply` says.
+    pub fn verif_maint(&self) {
+        if let Some(hk) = &self.base.housekeeper {
+            hk.try_sync(self.base.inner.as_ref());
+        }
+    }
 }
